@@ -4,8 +4,8 @@
 # Neither /repo nor the committed evidence is touched.
 ROOT="$(cd "$(dirname "$0")/.." && pwd)"; cd "$ROOT"; mkdir -p .work
 out=seeded/RESULTS.tsv
-echo -e "seed\tcheck\ttier\trc\tverdict" > $out
-export VERIF_EVIDENCE_DIR=/tmp/seedmatrix_evidence VERIF_REPLAY_DIR=/tmp/seedmatrix_replays
+[ "${1:-}" = "--one" ] || echo -e "seed\tcheck\ttier\trc\tverdict" > $out
+export VERIF_EVIDENCE_DIR=${VERIF_EVIDENCE_DIR:-/tmp/seedmatrix_evidence} VERIF_REPLAY_DIR=${VERIF_REPLAY_DIR:-/tmp/seedmatrix_replays}
 run() { # seed check
   local d=seeded/$1 p=$2 wt=/tmp/sm_$1_$2
   local patch=$d/patch.diff
@@ -19,16 +19,12 @@ run() { # seed check
   v=missed; [ $rc -eq 1 ] && v=caught; [ $rc -eq 2 ] && v=no-verdict; [ $rc -eq 3 ] && v=patch-does-not-apply
   echo -e "$1\t$p\tquick\t$rc\t$v" | tee -a $out
 }
-for d in seeded/C*; do
-  s=$(basename $d); p=${s%%-*}
-  run $s $p
-done
-# cross-checks: seeds that another property's check sees as well
-run C01-B C15
-run C01-D C15
-run C18-B C10
-run C11-B C13
-run C11-C C13
-run C01-E C20
-run C20-D C08
+if [ "${1:-}" = "--one" ]; then run $2 $3; exit 0; fi
+# (LANES checks at a time; the evidence / replay directories are per lane so that runs do not overwrite each other's files)
+{ for d in seeded/C*; do s=$(basename $d); echo "$s ${s%%-*}"; done
+  # cross-checks: seeds that another property's check sees as well
+  echo "C01-B C15"; echo "C01-D C15"; echo "C18-B C10"; echo "C11-B C13"; echo "C11-C C13"; echo "C01-E C20"; echo "C20-D C08"; echo "C20-F C08"
+  echo "C15-G C01"; echo "C01-H C04"; echo "C19-G C11"; echo "C11-F C12"; echo "C05-F C14"
+} | xargs -P ${LANES:-3} -L 1 bash -c 'VERIF_EVIDENCE_DIR=/tmp/seedmatrix_evidence_$$ VERIF_REPLAY_DIR=/tmp/seedmatrix_replays_$$ "$0" --one $1 $2; rm -rf /tmp/seedmatrix_evidence_$$ /tmp/seedmatrix_replays_$$' "$ROOT/tools/seed_matrix.sh" _
+sort -o $out.sorted $out && { grep '^seed' $out.sorted; grep -v '^seed' $out.sorted; } > $out; rm -f $out.sorted
 rm -rf /tmp/seedmatrix_evidence /tmp/seedmatrix_replays
